@@ -197,6 +197,7 @@ impl C10 {
             detail: m,
         })?;
         out.execs += 1;
+        crate::engine::trace(|| format!("{:?}: history fed = {:?}; consumer received = {:?}", case.stack, script, ok.calls));
         if ok.result.is_err() {
             return fail("c10.ok", "adapter failed although the consumer never failed".into());
         }
@@ -247,6 +248,7 @@ impl C10 {
                 detail: format!("k={}: {}", k, m),
             })?;
             out.execs += 1;
+            crate::engine::trace(|| format!("{:?}: consumer fails at call {} ({:?}) -> {:?}; producer had fed {} of {} calls", case.stack, k, ok.calls[k], run.result, run.fed, script.len()));
             match run.result {
                 Ok(()) => {
                     return fail(
